@@ -121,8 +121,12 @@ def setup(eng, flag_mode):
     # nodes.bfs through its contract (contracts/traversals.py, C12/bfs)
     def bfs(e, exprs, max_depth=None):
         p = cur()
-        if max_depth is not None:
-            raise sym.Unsupported('bfs contract is for max_depth=None')
+        # C12/bfs and C12/bfs[max_depth]: the (depth-limited) breadth-first
+        # sequence of the list handed over
+        p.oblige(f'C02/{N}/depth-limit-is-the-one-of-the-pass',
+                 max_depth is p.ghost['md_arg'],
+                 info={'signature': 'the traversal is limited by something '
+                       'else than the max_depth parameter of the pass'})
         ok = isinstance(exprs, wl.AbsList) and exprs is p.ghost['original']
         p.oblige(f'C02/{N}/walks-the-whole-current-input', ok,
                  info={'signature': 'tasks are generated from something '
@@ -327,10 +331,17 @@ def make_run(flag_mode):
         prod = eng.call(hier.g['Producer'], [muts, flag, original], {})
         skip = p.fresh_int('skip')
         p.assume(skip >= 0)
+        params = sym_dict()
+        p.ghost['md_arg'] = None
+        if p.decide(p.fresh_bool('pass_has_max_depth')):
+            md = p.fresh_int('max_depth')
+            p.assume(md >= 1)
+            p.ghost['md_arg'] = SNum(md)
+            params = eng.dict_set(params, 'max_depth', p.ghost['md_arg'])
         err = None
         try:
             for t in eng.call(eng.getattr(prod, 'generate'),
-                              [SNum(skip), sym_dict()], {}):
+                              [SNum(skip), params], {}):
                 for key in ('node_tasks', 'm_tasks', 'x_tasks'):
                     if key in p.ghost:
                         p.ghost[key].append(t)
@@ -351,7 +362,8 @@ def make_run(flag_mode):
 
 def contracts(tier):
     A = [st.ASSUME_EVENT, st.ASSUME_PICKLE,
-         'nodes.bfs through its contract (C12/bfs, max_depth=None)',
+         'nodes.bfs through its contract (C12/bfs, C12/bfs[max_depth]: the '
+         '(depth-limited) breadth-first sequence of the list)',
          'mutators are arbitrary objects: any subset of filter / mutations / '
          'global_mutations, each returning or raising; proposal iterators of '
          'arbitrary length that may raise',
